@@ -1554,6 +1554,8 @@ pub fn generate(p: &GenParams, out: &mut Out) {
                         }
                     }
                     random_sync(&mut rng, &mut c, n, 1);
+                    // no in-poll signals here: they need fn_graph's own events, whose sink is thread-local
+                    c.sync_sig.clear();
                     runs.push(c);
                 }
                 let x = ExploreOpts {
